@@ -266,25 +266,6 @@ pub fn resolve(raw: &RawTables) -> Tables {
     Tables { start, stop, run, spawn, lane }
 }
 
-pub fn size(p: &P) -> usize {
-    match p {
-        P::Seq(ps) => 1 + ps.iter().map(size).sum::<usize>(),
-        P::Then(a, b) => 1 + size(a) + size(b),
-        P::Branch { arms, .. } => 1 + arms.iter().map(size).sum::<usize>(),
-        _ => 1,
-    }
-}
-
-impl Tables {
-    pub fn nodes(&self) -> usize {
-        size(&self.start)
-            + size(&self.stop)
-            + self.run.iter().map(size).sum::<usize>()
-            + self.spawn.iter().map(size).sum::<usize>()
-            + self.lane.iter().flatten().map(size).sum::<usize>()
-    }
-}
-
 // ------------------------------------------------------------------------------------------------
 // strategies
 
